@@ -88,7 +88,7 @@ def check_fault_case(ctx, ch, events, engine, dm):
 
 # ---- robustness: damaged documents -------------------------------------------------------------------------
 damage_ops = st.lists(st.tuples(st.sampled_from(['drop_attr', 'dup_id', 'dangling', 'rename_tag', 'swap_parent', 'huge_id', 'unknown_elem',
-                                                 'empty_attr', 'del_elem', 'bad_ns', 'dup_elem']), st.integers(0, 10 ** 6)),
+                                                 'empty_attr', 'del_elem', 'bad_ns', 'dup_elem', 'misplaced_elem', 'misplaced_elem']), st.integers(0, 10 ** 6)),
                       min_size=1, max_size=3)
 
 
@@ -123,6 +123,13 @@ def damage(xml, ops):
             xml = re.sub(r'id="s0"', 'id="%s"' % ("x" * 5000), xml, count=1)
         elif op == 'unknown_elem':
             xml = xml[:t.start()] + '<frobnicate a="1"><x/></frobnicate>' + xml[t.start():]
+        elif op == 'misplaced_elem':
+            # a legal SCXML element where it must not be: in front of the chosen element (i.e. as child of whatever contains it)
+            what = ['<scxml/>', '<scxml><state id="zz"/></scxml>', '<final id="zf"/>', '<initial><transition target="s0"/></initial>', '<history id="zh"/>',
+                    '<transition target="s0"/>', '<onentry><log label="z" expr="1"/></onentry>', '<datamodel><data id="zd" expr="1"/></datamodel>',
+                    '<invoke type="scxml"/>', '<donedata/>', '<param name="p" expr="1"/>', '<content>x</content>', '<finalize/>', '<else/>', '<elseif cond="true"/>',
+                    '<parallel id="zp"/>', '<state id="s0"/>'][n % 17]
+            xml = xml[:t.start()] + what + xml[t.start():]
         elif op == 'del_elem':
             if t.group(2) == '/':
                 xml = xml[:t.start()] + xml[t.end():]
